@@ -14,6 +14,8 @@ package main
 // are written.
 
 import (
+	"path/filepath"
+	"os"
 	"fmt"
 	"go/token"
 	"go/types"
@@ -1020,5 +1022,126 @@ func c20equal(c *Ctx, m *c20m, run func(string) (*oStruct, string), pos token.Po
 	}
 	if n == 0 {
 		c.Unk("C20.R5", "proj.(*SR).Equal#model", pos, "no comparison case could be built")
+	}
+}
+
+// c09datumModel (C09.R9): how a +towgs84 list is classified and converted.  proj4js (bundled)
+// calls a list whose first three values are not all zero a 3-parameter shift, a seven-value list
+// whose last four are not all zero a 7-parameter shift — whatever the first three are — and
+// converts the rotations from arc seconds to radians and the scale from parts per million to a
+// factor.  The Go parser is interpreted on such lists with symbolic values.
+func c09datumModel(c *Ctx, jsDir string) {
+	m, parse := newC20m(c)
+	if m == nil {
+		c.Unk("C09.R9", "proj.Parse", token.NoPos, "API anchor does not resolve")
+		return
+	}
+	pos := c.P.Decl(parse).Pos()
+	// proj4js' numbering of the datum kinds
+	kinds := map[string]int64{}
+	if b, err := os.ReadFile(filepath.Join(jsDir, "datum.js")); err == nil {
+		for _, mm := range regexp.MustCompile(`var (PJD_[A-Z0-9_]+) = (\d+);`).FindAllStringSubmatch(string(b), -1) {
+			n, _ := strconv.ParseInt(mm[2], 10, 64)
+			kinds[mm[1]] = n
+		}
+	}
+	if len(kinds) < 4 {
+		c.Unk("C09.R9", "proj4js#datum.js", pos, "the datum kinds PJD_* were not found in the bundled proj4js source")
+		return
+	}
+	secToRad := poly(nil)
+	if o := c.P.Pkg("proj").Types.Scope().Lookup("secToRad"); o != nil {
+		if k, ok := o.(*types.Const); ok {
+			secToRad, _ = symFromConstant(k.Val())
+		}
+	}
+	if secToRad == nil {
+		f := new(big.Rat)
+		f.SetFloat64(4.84813681109535993589914102357e-6)
+		secToRad = polyConst(f)
+	}
+	kindOf := func(sr *oStruct) (int64, bool) {
+		// the pointer field of SR whose struct has a field of a named integer type
+		for _, k := range sr.order {
+			p, ok := sr.fields[k].(oPtr)
+			if !ok || p.s == nil {
+				continue
+			}
+			st, ok := p.s.typ.Underlying().(*types.Struct)
+			if !ok {
+				continue
+			}
+			for i := 0; i < st.NumFields(); i++ {
+				ft := st.Field(i).Type()
+				if _, named := ft.(*types.Named); !named {
+					continue
+				}
+				if b, ok := ft.Underlying().(*types.Basic); ok && b.Info()&types.IsInteger != 0 {
+					if v, ok := p.s.fields[st.Field(i).Name()].(oInt); ok {
+						return int64(v), true
+					}
+				}
+			}
+		}
+		return 0, false
+	}
+	p1 := polyVar("p1")
+	one := polyConst(big.NewRat(1, 1))
+	ppm := func(p poly) poly { return p.scale(big.NewRat(1, 1000000)).add(one, 1) }
+	cases := []struct {
+		name, list string
+		kind       string
+		want       map[int]poly
+	}{
+		{"translation-only", "P1,0,0", "PJD_3PARAM", map[int]poly{0: p1}},
+		{"all-zero(3)", "0,0,0", "PJD_WGS84", nil},
+		{"rotation-only", "0,0,0,P1,0,0,0", "PJD_7PARAM", map[int]poly{3: symMul(p1, secToRad), 6: one}},
+		{"scale-only", "0,0,0,0,0,0,P1", "PJD_7PARAM", map[int]poly{6: ppm(p1), 3: {}}},
+		{"translation+rotation", "P21,P22,P23,P24,P25,P26,P27", "PJD_7PARAM", map[int]poly{0: pv(21), 3: symMul(pv(24), secToRad), 4: symMul(pv(25), secToRad), 5: symMul(pv(26), secToRad), 6: ppm(pv(27))}},
+		{"seven-zeros", "0,0,0,0,0,0,0", "PJD_WGS84", nil},
+	}
+	for _, tc := range cases {
+		cons := "proj#towgs84(" + tc.name + ")"
+		sr, why := m.run(parse, "+proj=longlat +a=P7 +rf=P8 +towgs84="+tc.list+" +no_defs")
+		if why != "" {
+			c.Unk("C09.R9", cons, pos, "+towgs84=%s is not interpretable: %s", tc.list, why)
+			continue
+		}
+		k, ok := kindOf(sr)
+		if !ok {
+			c.Unk("C09.R9", cons, pos, "the datum kind of the parsed reference was not found")
+			continue
+		}
+		bad := ""
+		// no datum named and nothing to shift: the port deliberately uses "no datum" where proj4js
+		// uses the WGS84 kind; neither applies a shift
+		noShift := tc.kind == "PJD_WGS84" && (k == kinds["PJD_WGS84"] || k == kinds["PJD_NODATUM"])
+		if k != kinds[tc.kind] && !noShift {
+			name := fmt.Sprint(k)
+			for n, v := range kinds {
+				if v == k {
+					name = n
+				}
+			}
+			bad = fmt.Sprintf("+towgs84=%s is classified %s, proj4js makes it %s: the datum shift is %s", tc.list, name, tc.kind, map[bool]string{true: "not applied", false: "applied with the wrong parameters"}[strings.Contains(name, "WGS84") || strings.Contains(name, "3PARAM")])
+		}
+		if dp, ok := sr.fields["DatumParams"].(oSlice); ok && bad == "" {
+			for i, w := range tc.want {
+				if i >= dp.length() {
+					bad = fmt.Sprintf("+towgs84=%s keeps %d values", tc.list, dp.length())
+					break
+				}
+				g, ok := symOf(dp.at(i))
+				if !ok || !g.equal(w) {
+					bad = fmt.Sprintf("+towgs84=%s: value %d becomes %s, proj4js makes it %s", tc.list, i, showVal(dp.at(i)), w.canon())
+					break
+				}
+			}
+		}
+		if bad != "" {
+			c.Bad("C09.R9", cons, pos, "%s", bad)
+		} else {
+			c.OK("C09.R9", cons, pos, "classified %s with the values converted as in proj4js", tc.kind)
+		}
 	}
 }
